@@ -110,6 +110,8 @@ func materialise(v goval) (val any, hasIdentity bool) {
 		p := reflect.New(reflect.TypeOf(inner))
 		p.Elem().Set(reflect.ValueOf(inner))
 		return p.Interface(), id
+	case "samename":
+		return []any{rowOne(), rowTwo()}, false
 	case "nilslice":
 		return []string(nil), false
 	case "nilmap":
